@@ -17,6 +17,7 @@ type envState struct {
 	allocLabel string
 	runGo      bool
 	goQueue    []goTask
+	coros      []*coro
 	side       map[interface{}]Value // hidden storage for sync.Map, atomic.Value, etc.
 	hashApps   []hashApp
 	timers     []*timerRec
